@@ -462,13 +462,29 @@ def cli_cmd(wb, folder, out):
     return cmd
 
 
-def run_cli(wb, sentinel: bool, keep=False):
-    """one run of the real command in a fresh scratch directory"""
+# hostile surroundings of a run: what the working directory holds under the name of the log file, where -o points
+HOSTILE_ENVS = ("errors.log is a directory", "stale errors.log", "output file exists", "output directory missing")
+STALE_LOG = "stale line 1 of an earlier run\nstale line 2 of an earlier run\n"
+
+
+def run_cli(wb, sentinel: bool, keep=False, env=None):
+    """one run of the real command in a fresh scratch directory.  `env` (one of HOSTILE_ENVS): the working directory
+    holds a DIRECTORY named errors.log / a non-empty errors.log of an earlier run; -o names an existing file with old
+    content (= `sentinel`) / a path inside a directory that does not exist."""
     root = tempfile.mkdtemp(prefix="c15_")
     try:
         folder = materialise(wb, root)
         cwd = os.path.join(root, "cwd")
         out = os.path.join(root, "out.json")
+        if env == "errors.log is a directory":
+            os.makedirs(os.path.join(cwd, "errors.log"))
+        elif env == "stale errors.log":
+            with open(os.path.join(cwd, "errors.log"), "w") as f:
+                f.write(STALE_LOG)
+        elif env == "output file exists":
+            sentinel = True
+        elif env == "output directory missing":
+            out = os.path.join(root, "no_such_dir", "out.json")
         if sentinel:
             with open(out, "wb") as f:
                 f.write(SENTINEL)
@@ -487,13 +503,17 @@ def run_cli(wb, sentinel: bool, keep=False):
                 return {"rc": None, "timeout": True, "stderr": "", "log": "", "stdout": "", "out": None, "others": []}
         log = ""
         lp = os.path.join(cwd, "errors.log")
-        if os.path.exists(lp):
+        if os.path.isfile(lp):
             log = open(lp, encoding="utf-8", errors="replace").read()
+            if env == "stale errors.log" and log.startswith(STALE_LOG):
+                log = log[len(STALE_LOG):]      # what an earlier run left there is no report of THIS run
         data = None
-        if os.path.exists(out):
+        if os.path.isfile(out):
             data = open(out, "rb").read()
         others = sorted(x for x in os.listdir(root) if x not in ("wb", "cwd", "out.json"))
         others += sorted("cwd/" + x for x in os.listdir(cwd) if x not in ("errors.log", "__pycache__") and not x.endswith(".py"))
+        if os.path.isdir(lp):
+            others += sorted("cwd/errors.log/" + x for x in os.listdir(lp))
         return {"rc": p.returncode, "stderr": p.stderr.decode("utf-8", "replace"), "stdout": p.stdout.decode("utf-8", "replace"),
                 "log": log, "out": data, "others": others}
     finally:
